@@ -11,7 +11,10 @@ vars == <<mode, s, m>>
 
 Keys == {<<97>>, <<98>>, <<97, 98>>, <<233>>}
 Vals == {<<"none">>, <<"some", <<>>>>, <<"some", <<118>>>>, <<"some", <<120, 61, 121>>>>, <<"some", <<59, 128512>>>>}
+\* keys made of white space, or with white space at either end: nothing in RFC 6763 strips them
+OddKeys == {<<32>>, <<9>>, <<32, 32>>, <<32, 97>>, <<97, 32>>}
 Maps == UNION {[K -> Vals] : K \in {K \in SUBSET Keys : Cardinality(K) <= 3}}
+          \cup UNION {[K -> Vals] : K \in {K \in SUBSET (Keys \cup OddKeys) : Cardinality(K) <= 2 /\ K \cap OddKeys # {}}}
 
 Init == \/ mode = "text" /\ s \in UNION {[1 .. n -> Symbols] : n \in 0 .. L} /\ m = <<>>
         \/ mode = "map" /\ s = <<>> /\ m \in Maps
